@@ -537,8 +537,23 @@ def r4_freeform_offset(ctx):
     rep.ob('C08.R4', ctx.loc(f, init[0].node.ast if init else f.node), 'curr_offset = 0', bool(init), 'starts at the docstring start' if init else 'offset not initialised to 0', nontrivial=False, anchor=q)
     # the text part is the newline-join of its lines (so count + 1 is its number of lines)
     fp = ctx.func('xdoctest.parser.DoctestParser._package_groups')
-    ok = any(isinstance(d.value, ast.Call) and isinstance(d.value.func, ast.Attribute) and d.value.func.attr == 'join' and isinstance(d.value.func.value, ast.Constant) and d.value.func.value.value == '\n'
-             for d in ctx.rd(fp).defs if d.name == 'text_part')
+    def is_nl_join(e):
+        return isinstance(e, ast.Call) and isinstance(e.func, ast.Attribute) and e.func.attr == 'join' and isinstance(e.func.value, ast.Constant) and e.func.value.value == '\n'
+    # what is yielded for a text group (directly or through a local) is a newline join
+    ok = False
+    rdp = ctx.rd(fp)
+    gp = ctx.cfg(fp)
+    for n in gp.nodes:
+        if n.kind == 'stmt' and not n.dup:
+            for y in ast.walk(n.ast):
+                if isinstance(y, ast.Yield) and y.value is not None:
+                    v = y.value
+                    if is_nl_join(v):
+                        ok = True
+                    elif isinstance(v, ast.Name):
+                        ds = rdp.at(n, v.id)
+                        if ds and all(isinstance(d.value, ast.AST) and is_nl_join(d.value) for d in ds):
+                            ok = True
     rep.ob('C08.R4', ctx.loc(fp, fp.node), "text part = '\\n'.join(lines)", ok, 'a text part of k lines contains k - 1 newlines' if ok else 'text parts are not newline joins: count + 1 is not their number of lines', nontrivial=False, anchor=fp.qualname)
 
 
